@@ -22,6 +22,7 @@ pub fn main(args: &[String]) -> i32 {
 		if crate::util::skip_case(case_no) {
 			continue
 		}
+		crate::util::watch_begin(&out, &[104, case_no]);
 		let nkeys = rng.range(30, 200) as usize;
 		let mut keys: Vec<Vec<u8>> = Vec::new();
 		while keys.len() < nkeys {
@@ -120,6 +121,7 @@ pub fn main(args: &[String]) -> i32 {
 		if res.is_err() && verdict.is_ok() {
 			verdict = Err("panic in a btree mutation history".into());
 		}
+		crate::util::watch_end();
 		toks[1] = done;
 		out.case(&toks);
 		out.obs(&obs);
